@@ -340,6 +340,9 @@ func (g *Gen) SetField(v reflect.Value, f Field, depth int) {
 		s := ap.Source{Content: g.NLV()}
 		if rapid.Bool().Draw(g.T, "srcmime") {
 			s.MediaType = "text/markdown"
+			if rapid.IntRange(0, 3).Draw(g.T, "srcmimeonly") == 0 {
+				s.Content = nil // a source that only names its media type
+			}
 		}
 		fv.Set(reflect.ValueOf(s))
 	case KPublicKey:
